@@ -118,7 +118,9 @@ func (o *packetScanCmdOpts) getScanRange(dstSubnet *net.IPNet) (*scan.Range, err
 	if o.srcIP != nil {
 		srcIP = o.srcIP
 	}
-	if srcIP == nil {
+	// only an IPv4 address can be the source of the probes
+	// (the first address of an interface may be an IPv6 one)
+	if srcIP = srcIP.To4(); srcIP == nil {
 		return nil, errSrcIP
 	}
 
@@ -130,7 +132,7 @@ func (o *packetScanCmdOpts) getScanRange(dstSubnet *net.IPNet) (*scan.Range, err
 	return &scan.Range{
 		Interface: iface,
 		DstSubnet: dstSubnet,
-		SrcIP:     srcIP.To4(),
+		SrcIP:     srcIP,
 		SrcMAC:    srcMAC}, nil
 }
 
